@@ -40,7 +40,7 @@ PROP = dict(
                    floors={"mpt.py:encode_cobs": 1500, "mpt.py:encode_command": 300,
                            "monitor:python-frame-through-c-decoder": 4000, "cases:ramp-every-length": 601})],
         rule=("case = (framing, driver in {raw encoder function with capacity schedule (start 0..8 / ~255 / NULL block; growth +1, "
-              "+k, just enough, doubling), mpt_array_push driven by a loop that advances by the returned size (optionally with finished bytes released from the front after each message; or one piece of 30000..70001 bytes), C++ encode_array::push (such loops, or one fragmented mpt::message; shift() between messages), mpt.py encoder}, 1..4 messages, per message a "
+              "+k, just enough, doubling), mpt_array_push driven by a loop that advances by the returned size (optionally with finished bytes released from the front after each message; or one piece of 30000..70001 bytes), C++ encode_array::push (such loops, or one fragmented mpt::message; shift() between messages), mpt.py encoder}, 1..8 messages, per message a "
               "split into push pieces (one piece, single bytes, two pieces cut at a block edge / inside a zero pair, PRNG "
               "composition)); frames are decoded one-shot, byte-wise and under a PRNG schedule (slack, segment sizes, 1..4 iovec "
               "fragments, MissingBuffer answer size, peek calls).  non-trivial = some message of the case contains a zero byte, "
